@@ -175,7 +175,7 @@ func runC10(t testing.TB, c C10Case) (key, what string, sites map[string]int) {
 				coll("C10").Class("host-rejected-by-http-layer", 1)
 				continue
 			}
-		case "id-connect", "id-refused":
+		case "id-connect", "id-refused", "id-vs-io":
 			path := "/i/" + url.PathEscape(r.Text)
 			ic, err := s.OpenIn(path, host)
 			if err != nil {
@@ -200,6 +200,35 @@ func runC10(t testing.TB, c C10Case) (key, what string, sites map[string]int) {
 					oc.Close()
 				}
 				wants = append(wants, c10Site{"broker-refused-duplicate", "x" + r.Text}, c10Site{"broker-refused-wrong-id", "y" + r.Text})
+			}
+			if r.Kind == "id-vs-io" {
+				// a bidirectional request while only this input is attached: the
+				// refusal names the ID of the *attached* unidirectional stream
+				if _, ok := s.WaitLine(Wait, from, "connected"); !ok {
+					ic.Close()
+					return "HARNESS", desc + ": input never connected", sites
+				}
+				if ioc, err := s.OpenIO("/io", host); err == nil {
+					ok := s.WaitLines(Wait, func(ls []Line) bool {
+						for _, l := range ls {
+							if l.Seq > from && strings.Contains(l.CL.Line, "unidirectional") {
+								return true
+							}
+						}
+						return false
+					})
+					ioc.Close()
+					if ok {
+						q := strconv.Quote(r.Text)
+						for _, l := range s.Lines() {
+							if l.Seq > from && strings.Contains(l.CL.Line, "unidirectional") && !strings.Contains(l.CL.Line, r.Text) && !strings.Contains(l.CL.Line, q[1:len(q)-1]) {
+								ic.Close()
+								return "text-not-verbatim", fmt.Sprintf("%s: the refusal of a bidirectional request does not show the attached stream's ID: %q", desc, l.CL.Line), sites
+							}
+						}
+						sites["io-refusal-names-unidirectional-id"]++
+					}
+				}
 			}
 			defer ic.Close()
 			// wait for the expected notices before closing
@@ -352,7 +381,7 @@ func genC10() *rapid.Generator[C10Case] {
 		n := rapid.IntRange(1, 5).Draw(t, "nreq")
 		nodir := rapid.IntRange(0, 5).Draw(t, "nodir") == 0
 		for i := 0; i < n; i++ {
-			k := rapid.SampledFrom([]string{"file-query", "file-query", "file-path", "c2-param", "c2-form", "c2-header", "host", "badhost", "badhost-header", "id-connect", "id-refused", "zone"}).Draw(t, "kind")
+			k := rapid.SampledFrom([]string{"file-query", "file-query", "file-path", "c2-param", "c2-form", "c2-header", "host", "badhost", "badhost-header", "id-connect", "id-refused", "id-vs-io", "zone"}).Draw(t, "kind")
 			r := C10Req{Kind: k}
 			switch k {
 			case "file-query":
@@ -367,7 +396,7 @@ func genC10() *rapid.Generator[C10Case] {
 					sb.WriteString(rapid.SampledFrom([]string{"%2e", "%2d", "%5b", "%64", "%73", "%25", "%20", "%2f", "a", "b1", "%76", "%71", "%78"}).Draw(t, "pseg"))
 				}
 				r.Text = sb.String()
-			case "c2-param", "c2-form", "id-connect", "id-refused":
+			case "c2-param", "c2-form", "id-connect", "id-refused", "id-vs-io":
 				r.Text = genVerbText(t, true)
 				if strings.HasPrefix(r.Text, " ") || strings.HasSuffix(r.Text, " ") {
 					r.Text = "a" + r.Text + "b"
